@@ -9,7 +9,8 @@ director's list while their threads are still being killed):
         *listed* instance `th.inst`;
 * `b` — every listed instance has a non-empty, duplicate-free chain whose members are live records
         (not dead, VM not destroyed) of that very instance, attached;
-* `c` — instance ids of records are below `nextInst`.
+* `c` — instance ids of records are below `nextInst`;
+* `d` — exempt instances are old (`< nextInst`) and not listed.
 
 This file: the definition and its behaviour under the primitive steps (`removeFromInst`,
 `NotifyDelete`, the end of `~ScriptThread`, `ScriptVM::Execute`'s epilogue, thread creation).
@@ -25,6 +26,7 @@ structure J (X : List Nat) (s : State) : Prop where
   b : ∀ e ∈ s.insts, e.2 ≠ [] ∧ e.2.Nodup ∧ ∀ t ∈ e.2, ∃ th, thFind s.threads t = some th ∧ th.dead = false ∧
         th.vm ≠ .destroyed ∧ th.inst = e.1 ∧ th.attached = true
   c : ∀ t th, thFind s.threads t = some th → th.inst < s.nextInst
+  d : ∀ i ∈ X, i < s.nextInst ∧ ∀ e ∈ s.insts, e.1 ≠ i
 
 /-! ### list facts about the instance list -/
 
@@ -132,7 +134,7 @@ theorem removeFromInst_insts (s : State) (t i : Nat) : (removeFromInst s t i).in
 
 theorem J.congr {X : List Nat} {s s' : State} (h : J X s) (e1 : s'.threads = s.threads) (e2 : s'.insts = s.insts)
     (e3 : s'.nextInst = s.nextInst) : J X s' :=
-  ⟨by rw [e1, e2]; exact h.a, by rw [e1, e2]; exact h.b, by rw [e1, e3]; exact h.c⟩
+  ⟨by rw [e1, e2]; exact h.a, by rw [e1, e2]; exact h.b, by rw [e1, e3]; exact h.c, by rw [e2, e3]; exact h.d⟩
 
 /-- a record update that keeps instance, attachment and death, does not give a VM back and does not
     destroy one -/
@@ -163,7 +165,7 @@ theorem J.setTh {X : List Nat} {s : State} (h : J X s) (t : Nat) (f : Th → Th)
       subst hut
       exact ⟨f th, by simp [hu], Or.inr rfl⟩
     · exact ⟨th, hu, Or.inl rfl⟩
-  refine ⟨?_, ?_, ?_⟩
+  refine ⟨?_, ?_, ?_, h.d⟩
   · intro u th' hu hv
     obtain ⟨th, h1, h2⟩ := hfind u th' hu
     rcases h2 with h2 | h2
@@ -201,7 +203,7 @@ theorem J.setTh_unchained {X : List Nat} {s : State} (h : J X s) (t : Nat) (f : 
   have hne : ∀ u, u ≠ t → thFind (s.setTh t f).threads u = thFind s.threads u := by
     intro u hut
     rw [State.setTh_threads, thFind_map_upd]; simp [hut]
-  refine ⟨?_, ?_, ?_⟩
+  refine ⟨?_, ?_, ?_, h.d⟩
   · intro u th' hf hv
     by_cases hut : u = t
     · subst hut
@@ -230,7 +232,7 @@ theorem J.setTh_unchained {X : List Nat} {s : State} (h : J X s) (t : Nat) (f : 
 /-- the record of a thread that is in no chain disappears -/
 theorem J.filterTh {X : List Nat} {s : State} (h : J X s) (t : Nat) (hu : Unchained s t) :
     J X { s with threads := s.threads.filter (fun e => !(e.1 == t)) } := by
-  refine ⟨?_, ?_, ?_⟩
+  refine ⟨?_, ?_, ?_, h.d⟩
   · intro u th hf hv
     simp only at hf
     rw [thFind_filter_ne] at hf
@@ -252,6 +254,19 @@ theorem J.filterTh {X : List Nat} {s : State} (h : J X s) (t : Nat) (hu : Unchai
     · exact h.c u th hf
 
 /-! ### `ScriptClass::RemoveThread` of a thread that has lost its VM -/
+
+theorem riInsts_keys (L : List (Nat × List Nat)) (t i : Nat) (e' : Nat × List Nat) (h : e' ∈ riInsts L t i) :
+    ∃ e ∈ L, e.1 = e'.1 := by
+  unfold riInsts at h
+  split at h
+  · exact ⟨e', h, rfl⟩
+  · split at h
+    · exact ⟨e', h, rfl⟩
+    · split at h
+      · exact ⟨e', (List.mem_filter.1 h).1, rfl⟩
+      · obtain ⟨e, hm, rfl⟩ := List.mem_map.1 h
+        refine ⟨e, hm, ?_⟩
+        split <;> rfl
 
 theorem instChain_riInsts_ne (L : List (Nat × List Nat)) (t i j : Nat) (h : j ≠ i) :
     instChain (riInsts L t i) j = instChain L j := by
@@ -287,7 +302,7 @@ theorem J.unlink {X : List Nat} {s : State} (h : J X s) {t : Nat} {th : Th}
       th0.dead = false ∧ th0.vm ≠ .destroyed ∧ th0.inst = e.1 ∧ th0.attached = true := by
     intro e he u hu hut
     rw [hne u hut]; exact (h.b e he).2.2 u hu
-  refine ⟨?_, ?_, ?_⟩
+  refine ⟨?_, ?_, ?_, ?_⟩
   · intro u th' hu hvm
     show th'.inst ∈ X ∨ u ∈ instChain (riInsts s.insts t th.inst) th'.inst
     have hu' : thFind (s.setTh t g).threads u = some th' := hu
@@ -362,6 +377,11 @@ theorem J.unlink {X : List Nat} {s : State} (h : J X s) {t : Nat} {th : Th}
       rw [hself] at hu'; cases hu'
       rw [hginst]; exact h.c u th hf
     · rw [hne u hut] at hu'; exact h.c u th' hu'
+  · intro i hi
+    refine ⟨(h.d i hi).1, ?_⟩
+    intro e' he'
+    obtain ⟨e, hm, hk⟩ := riInsts_keys s.insts t th.inst e' he'
+    rw [← hk]; exact (h.d i hi).2 e hm
 
 /-! ### `NotifyDelete`, the end of `~ScriptThread`, the epilogue of `ScriptVM::Execute` -/
 
@@ -453,7 +473,7 @@ theorem J.spawnIn {X : List Nat} {s : State} (h : J X s) (hn : NInv s) (r : Th) 
       | none => rw [hfd] at hu; simp at hu
       | some e0 => rw [hfd] at hu; simp at hu; exact List.mem_cons_of_mem _ hu
     · rw [instChain_map_ne _ _ _ _ hj]; exact hu
-  refine ⟨?_, ?_, ?_⟩
+  refine ⟨?_, ?_, ?_, ?_⟩
   · intro u th hu hvm
     rcases (thFind_append_new r hfresh u th).1 hu with h1 | ⟨h1, h2⟩
     · rcases h.a u th h1 hvm with m | m
@@ -498,6 +518,12 @@ theorem J.spawnIn {X : List Nat} {s : State} (h : J X s) (hn : NInv s) (r : Th) 
     rcases (thFind_append_new r hfresh u th).1 hu with h1 | ⟨_, h2⟩
     · exact h.c u th h1
     · subst h2; rw [hr]; exact hlt
+  · intro i' hi'
+    refine ⟨(h.d i' hi').1, ?_⟩
+    intro e' he'
+    obtain ⟨e, hm, rfl⟩ := List.mem_map.1 he'
+    have := (h.d i' hi').2 e hm
+    split <;> exact this
 
 /-- a new thread with a new script instance of its own -/
 theorem J.spawnFresh {X : List Nat} {s : State} (h : J X s) (hn : NInv s) (r : Th) (hr : r.inst = s.nextInst)
@@ -508,7 +534,7 @@ theorem J.spawnFresh {X : List Nat} {s : State} (h : J X s) (hn : NInv s) (r : T
     cases hf : thFind s.threads s.nextTid with
     | none => rfl
     | some th0 => have := (hn.range _ _ hf).2; omega
-  refine ⟨?_, ?_, ?_⟩
+  refine ⟨?_, ?_, ?_, ?_⟩
   · intro u th hu hvm
     show th.inst ∈ X ∨ u ∈ instChain ((s.nextInst, [s.nextTid]) :: s.insts) th.inst
     rw [instChain_cons]
@@ -536,5 +562,12 @@ theorem J.spawnFresh {X : List Nat} {s : State} (h : J X s) (hn : NInv s) (r : T
     rcases (thFind_append_new r hfresh u th).1 hu with h1 | ⟨_, h2⟩
     · have := h.c u th h1; omega
     · subst h2; rw [hr]; omega
+  · intro i' hi'
+    have hd := h.d i' hi'
+    refine ⟨by show i' < s.nextInst + 1; omega, ?_⟩
+    intro e' he'
+    rcases List.mem_cons.1 he' with he' | he'
+    · subst he'; show s.nextInst ≠ i'; omega
+    · exact hd.2 e' he'
 
 end Morfuse.Sched
